@@ -124,6 +124,22 @@ pub fn run(kind: &str, args: &[String]) -> i32 {
                     }
                 }
             }
+            "sink" => {
+                // the model's section lengths are those of this mapping's cache
+                let src = b"a.B -> a:\n    void m() -> b\n";
+                let script: Vec<i64> = case["schedule"].as_array().unwrap().iter().map(|x| x.as_i64().unwrap()).collect();
+                let pol = &case["policy"];
+                let rest = if pol["kind"] == "cap" { pol["k"].as_i64().unwrap() } else { 1 << 30 };
+                let o = crate::sink::run(src, script, rest);
+                let got = json!({
+                    "ok": o.ok, "failed": o.sink.any_fail, "sink_is_canonical": o.sink.data == o.canonical,
+                    "sink_is_prefix": o.canonical.starts_with(&o.sink.data),
+                    "offers_are_next": crate::sink::offers_are_next(&o),
+                    "sink_len": o.sink.data.len(),
+                });
+                rep.check(idx, "write/canonical-length", Ok(json!(o.canonical.len())), &case["total"]);
+                rep.check(idx, "write/scripted-sink", Ok(got), &case["want"]);
+            }
             "retrace" => retrace(&mut rep, idx, &case, &mut queries, args.get(1).map(|s| s.as_str()).unwrap_or("all")),
             "meta" => {
                 let src = enc::from_bytes(&case["src"]);
